@@ -16,9 +16,11 @@ KlSteps == { <<S("A","none",FALSE), S("B","none",TRUE), S("C","none",FALSE)>>,
              <<S("A","none",FALSE), S("B","ge1",TRUE), S("C","none",FALSE)>>,
              <<S("A","none",FALSE), S("B","gtself",TRUE), S("C","none",FALSE)>>,
              <<S("A","none",FALSE), S("B","none",TRUE)>> }
-P(s, pt, ng, mr, st, mk, me) == [steps |-> s, part |-> pt, neg |-> ng, maxRuns |-> mr, strat |-> st, maxK |-> mk, maxEnum |-> me]
-SeqPrograms == { P(s, pt, ng, 100, "drop", 20, 100) : s \in SeqSteps, pt \in BOOLEAN, ng \in {"none","N"} }
-KlPrograms  == { P(s, pt, ng, 100, "drop", mk, 100) : s \in KlSteps, pt \in BOOLEAN, ng \in {"none","N"}, mk \in {2, 20} }
-CapPrograms == { P(s, pt, "none", mr, st, mk, 100) : s \in SeqSteps \cup KlSteps, pt \in BOOLEAN, mr \in {1, 2}, st \in {"drop","oldest","least"}, mk \in {2, 20} }
+P(s, pt, ng, mr, st, mk, me) == [steps |-> s, part |-> pt, negs |-> ng, maxRuns |-> mr, strat |-> st, maxK |-> mk, maxEnum |-> me]
+Ng(t, f) == [type |-> t, f |-> f]
+NegSets == { <<>>, <<Ng("N","none")>>, <<Ng("N","ge1")>>, <<Ng("N","eqfirst"), Ng("N","ge1")>> }
+SeqPrograms == { P(s, pt, ng, 100, "drop", 20, 100) : s \in SeqSteps, pt \in BOOLEAN, ng \in NegSets }
+KlPrograms  == { P(s, pt, ng, 100, "drop", mk, 100) : s \in KlSteps, pt \in BOOLEAN, ng \in {<<>>, <<Ng("N","none")>>}, mk \in {2, 20} }
+CapPrograms == { P(s, pt, <<>>, mr, st, mk, 100) : s \in SeqSteps \cup KlSteps, pt \in BOOLEAN, mr \in {1, 2}, st \in {"drop","oldest","least"}, mk \in {2, 20} }
 AllPrograms == SeqPrograms \cup KlPrograms \cup CapPrograms
 ====
